@@ -54,20 +54,66 @@ def main():
         seams.install_table_seam()
         plan = seams.IoPlan([{"site": "table_write", "kind": "EACCES", "sticky": True}])
         seams.HOOKS.io = plan
+    if job.get("crash_at"):
+        # the process dies (as by kill -9) at a point where the cache file has not been touched yet: at the start of
+        # table generation, or just before the table file is opened for writing.  Whatever else the library left on
+        # disk by then (lock files, temp files) survives into the next incarnation.
+        def crash(site):
+            os.write(out_fd, (json.dumps({"crashed": site}) + "\n").encode())
+            os._exit(137)
+        seams.HOOKS.crash = crash
+        if job["crash_at"] == "table_write":
+            seams.install_table_seam()
+            plan = seams.IoPlan([{"site": "table_write", "kind": "CRASH"}])
+            seams.HOOKS.io = plan
+        else:
+            import ply.yacc as _Y
+            _Y.LRGeneratedTable = lambda *a, **k: crash("regen_start")
     want = set(job.get("want_outcomes") or [])
-    for n, it in enumerate(job["items"]):
+
+    def one(it):
         try:
             p = DDLParser(it["ddl"], **it.get("flags", {}))
         except BaseException as e:  # noqa
-            o = ["ctor-exc", type(e).__name__, str(e)[:200]]
-            if res["ctor_exc"] is None:
-                res["ctor_exc"] = o
-        else:
+            return ["ctor-exc", type(e).__name__, str(e)[:200]]
+        try:
+            return ["ok", core.canon(p.run(**it.get("run", {})))]
+        except BaseException as e:  # noqa
+            return core.outcome_of_exception(e)
+
+    # The process start is what C20 is about: the first constructor meets the cache state (loads / rejects / regenerates /
+    # rewrites it).  It runs here, in the incarnation itself.  The workload items are then parsed one per forked child of
+    # this process, so every item sees "this process after its start-up" and nothing of the other items: a defect of
+    # repeated use inside one process (C14 / C15) then shifts baseline and sample alike and is not reported against C20,
+    # while "second and later parser objects of the process use other tables than the first" still is.
+    # Item 0 is parsed by the FIRST parser object of the process (the one that met the cache state); it is constructed
+    # now and run last, so the children fork from "first object constructed, nothing parsed yet".
+    items = job["items"]
+    p0, o0 = None, None
+    if items:
+        try:
+            p0 = DDLParser(items[0]["ddl"], **items[0].get("flags", {}))
+        except BaseException as e:  # noqa
+            o0 = ["ctor-exc", type(e).__name__, str(e)[:200]]
+    import isolate
+    outs = [None] * len(items)
+    for n, it in enumerate(items):
+        if n == 0:
+            continue
+        try:
+            outs[n] = isolate.run_isolated(lambda it=it: one(it), timeout=300)
+        except RuntimeError as e:
+            outs[n] = ["harness", str(e)[:200]]
+    if items:
+        if p0 is not None:
             try:
-                r = p.run(**it.get("run", {}))
-                o = ["ok", core.canon(r)]
+                o0 = ["ok", core.canon(p0.run(**items[0].get("run", {})))]
             except BaseException as e:  # noqa
-                o = core.outcome_of_exception(e)
+                o0 = core.outcome_of_exception(e)
+        outs[0] = o0
+    for n, o in enumerate(outs):
+        if o[0] == "ctor-exc" and res["ctor_exc"] is None:
+            res["ctor_exc"] = o
         res["digests"].append(core.digest_of(o)[:20])
         if n in want or job.get("all_outcomes"):
             res["outcomes"][str(n)] = core.short(o, 1500)
